@@ -6,7 +6,7 @@
 use crate::gen::ModelData;
 use vaporetto::{Model, Predictor, Sentence, SolverType, Trainer};
 
-const CORPORA: [&[&str]; 7] = [
+const CORPORA: [&[&str]; 8] = [
     &["火星 猫 だ", "これ は 猫 です", "a b c ab", "猫 と 火星 人", "ab c ab c", "です から 猫 だ"],
     &["火星/名詞 猫/名詞 だ/助動詞", "これ/代名詞 は/助詞 猫/名詞 です/助動詞", "猫/動物 だ/助動詞"],
     // no word boundary anywhere: every sentence is one token
@@ -16,6 +16,10 @@ const CORPORA: [&[&str]; 7] = [
     // tokens with several tag candidates in two categories (the tag classifiers are really trained)
     &["人/名詞/ヒト が/助詞/ガ 行っ/動詞/イッ た/助動詞/タ", "会/名詞/カイ を/助詞/ヲ 行っ/動詞/オコナッ た/助動詞/タ", "二 人/接尾辞/ニン で/助詞/デ 行っ/動詞/イッ た/助動詞/タ",
       "人/名詞/ジン と/助詞/ト 人/名詞/ヒト", "行っ/動詞/イッ て/助詞/テ 行っ/動詞/オコナッ た/助動詞/タ"],
+    // a corpus large enough for dictionary features to get non-zero weights (words of 1..5 characters)
+    &["これ は テスト です", "それ は ペン です", "あれ は カメラ です か", "わたし は パン を たべる", "かれ は サッカー が すき だ", "ここ に ノート が ある",
+      "テレビ を みる", "パン と ミルク を かう", "この カメラ は たかい", "あの ホテル に とまる", "バス で いく", "タクシー を よぶ", "まいにち コーヒー を のむ",
+      "その ドア を あける", "トマト と レタス の サラダ", "あたらしい パソコン が ほしい", "アルバイト を さがす", "きのう アルバイト に いった"],
     // nothing to learn from: no sentence / only one-character sentences (no boundary at all)
     &[],
     &["a", "猫"],
@@ -27,7 +31,10 @@ thread_local! { static TRAINED: std::cell::Cell<usize> = std::cell::Cell::new(0)
 
 fn check_inner(cw: u8, cn: u8, tw: u8, tn: u8, dict: u8, corpus: usize, solver: usize) -> Option<String> {
     let sents: Vec<Sentence> = CORPORA[corpus].iter().map(|l| Sentence::from_tokenized(l).unwrap()).collect();
-    let words: Vec<String> = if dict > 0 { vec!["猫".into(), "火星".into(), "ab".into(), "です".into(), "これは".into()] } else { vec![] };
+    let words: Vec<String> = if dict > 0 {
+        ["猫", "火星", "ab", "です", "これは", "は", "を", "が", "に", "と", "パン", "ペン", "バス", "テスト", "カメラ", "ノート", "サッカー", "タクシー", "コーヒー", "アルバイト", "ヌネ", "ムモヤユヨ"]
+            .iter().map(|w| w.to_string()).collect()
+    } else { vec![] };
     // tag dictionary: default tags for tokens that may be absent from the corpus
     let tag_dict: Vec<Sentence> = if dict == 3 { vec![Sentence::from_tokenized("猫/名詞/ネコ 犬/名詞/イヌ 行っ/動詞/イッ").unwrap()] } else { vec![] };
     let mut t = match Trainer::new(cw, cn, tw, tn, words, dict, &tag_dict) {
@@ -75,9 +82,29 @@ fn check_inner(cw: u8, cn: u8, tw: u8, tn: u8, dict: u8, corpus: usize, solver: 
     {
         return Some("a weight outside the signed 16-bit range".into());
     }
+    // dictionary words: left weight, one and the same inside weight on every inner boundary, right weight; all words of a
+    // length bucket (lengths >= the bucket count share the last one) carry the same three weights
+    let mut buckets: std::collections::BTreeMap<usize, (i32, Option<i32>, i32)> = std::collections::BTreeMap::new();
     for d in &md.dict_model.0 {
-        if d.weights.len() != d.word.chars().count() + 1 {
+        let n = d.word.chars().count();
+        if d.weights.len() != n + 1 {
             return Some(format!("dictionary word {:?} has {} weights", d.word, d.weights.len()));
+        }
+        let inner = &d.weights[1..n];
+        if inner.iter().any(|w| *w != inner[0]) {
+            return Some(format!("dictionary word {:?}: inner boundaries carry different weights {:?}", d.word, d.weights));
+        }
+        let b = n.min(dict as usize);
+        let cur = (d.weights[0], inner.first().copied(), d.weights[n]);
+        match buckets.get(&b) {
+            None => { buckets.insert(b, cur); }
+            Some(prev) => {
+                let inside_ok = match (prev.1, cur.1) { (Some(x), Some(y)) => x == y, _ => true };
+                if prev.0 != cur.0 || prev.2 != cur.2 || !inside_ok {
+                    return Some(format!("dictionary word {:?} (bucket {}) carries (left, inside, right) = {:?}, another word of the bucket {:?}", d.word, b, cur, prev));
+                }
+                if prev.1.is_none() { buckets.insert(b, (prev.0, cur.1, prev.2)); }
+            }
         }
     }
     // usable: re-read, both predictor flavours, predict + tag
